@@ -203,12 +203,42 @@ def racy_sets(prog: Program, fs0: dict[str, Any]) -> tuple[set[str], set[str]]:
         if nd > 1 and (j == "DISCRIMINATOR" or (j == "N_OF_M" and 0 < int(s.get("thr", 0)) < nd)):
             view_racy |= {ref} | prog.descendants(ref)
             early |= {ref} | prog.descendants(ref)
+    # a backward jump re-arms the target and everything downstream of it; a re-armed stage that is not an
+    # ancestor of the jumping stage runs in parallel with it, so whether it had already finished (and its tasks
+    # count one more completed iteration) when the jump hit is the schedule's choice: its outputs, hence the view
+    # of everything downstream of it, are schedule dependent
+    def first_of(ref: str) -> bool:
+        s_ = prog.stages[ref]
+        nd_ = len(s_.get("deps") or [])
+        return nd_ > 1 and (s_.get("join", "AND") == "DISCRIMINATOR"
+                            or (s_.get("join") == "N_OF_M" and 0 < int(s_.get("thr", 0)) < nd_))
+
+    def sure_done(ref: str) -> set[str]:
+        """Stages certainly finished while ``ref`` runs: its upstreams through all-of joins only."""
+        if first_of(ref):
+            return set()
+        out: set[str] = set()
+        for d in prog.stages[ref].get("deps") or []:
+            out |= {d} | sure_done(d)
+        return out
+
+    for j in prog.order:
+        for t in prog.task_specs(j):
+            if t.get("b") != "jumper" or t.get("target") not in prog.stages:
+                continue
+            tgt = t["target"]
+            rearmed = {tgt} | prog.descendants(tgt)
+            parallel = rearmed - sure_done(j) - {j} - prog.descendants(j)
+            for s_ in parallel:
+                view_racy |= prog.descendants(s_)
     halted = [k for k, v in fs0["stages"].items() if v["status"] in HALT and not v["synthetic"] and k in prog.stages]
     status_racy: set[str] = set()
     if halted:
         keep: set[str] = set()
         for hs in halted:
-            if hs in early:
+            # CANCELED is what a halt does to *other* stages (whatever happened to be running, or was started
+            # late by an in-flight completion): only a stage that halted by itself pins its ancestors
+            if hs in early or fs0["stages"][hs]["status"] == "CANCELED":
                 continue
             keep |= prog.ancestors(hs)
         status_racy = set(prog.order) - keep
